@@ -537,8 +537,9 @@ Definition read_chunk (m : bmode) (n : N) (rc : str) : str * str * bool :=
   let rest := skipn l rc in
   (got, rest, match rc with [] => true | _ => bm_eofd m && negb (is_nil got) && is_nil rest end).
 
-(* k_bi: how many bodies were opened after the first one (the i-th body behaves as [modes i]) *)
-Record rsc := mkRsc { k_rc : str; k_size : N; k_off : N; k_closed : bool; k_bi : nat }.
+(* k_bi: index of the body being read (the i-th body the server produced behaves as
+   [modes i]); k_nb: bodies produced so far; k_rq: Range requests sent so far *)
+Record rsc := mkRsc { k_rc : str; k_size : N; k_off : N; k_closed : bool; k_bi : nat; k_nb : nat; k_rq : nat }.
 
 Inductive whence := SeekStart | SeekCurrent | SeekEnd.
 Inductive sop := SRead (n : N) | SSeek (off : Z) (w : whence) | SClose.
@@ -548,52 +549,70 @@ Inductive sout :=
 | SErr
 | SClosed.
 
-(* the server side of a Range request on [content]: 206 + slice, or failure *)
-Definition range_body (content : str) (a bb : N) : option str :=
-  if (a <=? bb) && (bb <? len content) then Some (slice a bb content) else None.
+(* offset arithmetic is Go's int64: a sum that overflows wraps around *)
+Definition wrap64 (z : Z) : Z := ((z + 9223372036854775808) mod 18446744073709551616 - 9223372036854775808)%Z.
+
+Definition is_body_status (st : N) : bool := (st =? 200) || (st =? 206).
 
 Section Seek.
   Variable modes : nat -> bmode.
+  (* the answer to the i-th Range request "bytes=a-b" *)
+  Variable srv : nat -> N -> N -> response.
 
-  Definition rsc_step (content : str) (k : rsc) (o : sop) : rsc * list (N * N) * sout :=
+  Definition rsc_step (k : rsc) (o : sop) : rsc * list (N * N) * sout :=
     match o with
-    | SClose => (mkRsc (k_rc k) (k_size k) (k_off k) true (k_bi k), [], SClosed)
+    | SClose => (mkRsc (k_rc k) (k_size k) (k_off k) true (k_bi k) (k_nb k) (k_rq k), [], SClosed)
     | SRead n =>
         if k_closed k then (k, [], SErr)
         else
           let '(got, rest, eof) := read_chunk (modes (k_bi k)) n (k_rc k) in
           (* rsc.offset += int64(n), whatever err is *)
-          (mkRsc rest (k_size k) (k_off k + len got) false (k_bi k), [], SData got eof)
+          (mkRsc rest (k_size k) (k_off k + len got) false (k_bi k) (k_nb k) (k_rq k), [], SData got eof)
     | SSeek off w =>
         if k_closed k then (k, [], SErr)
         else
           let tgt : Z := match w with
                          | SeekStart => off
-                         | SeekCurrent => (off + Z.of_N (k_off k))%Z
-                         | SeekEnd => (off + Z.of_N (k_size k))%Z
+                         | SeekCurrent => wrap64 (off + Z.of_N (k_off k))
+                         | SeekEnd => wrap64 (off + Z.of_N (k_size k))
                          end in
           if (tgt <? 0)%Z then (k, [], SErr)
           else
             let t := Z.to_N tgt in
             if t =? k_off k then (k, [], SPos t)
-            else if k_size k <=? t then (mkRsc [] (k_size k) t false (k_bi k), [], SPos t)
+            else if k_size k <=? t then (mkRsc [] (k_size k) t false (k_bi k) (k_nb k) (k_rq k), [], SPos t)
             else
-              match range_body content t (k_size k - 1) with
-              | Some body => (mkRsc body (k_size k) t false (S (k_bi k)), [(t, k_size k - 1)], SPos t)
-              | None => (k, [(t, k_size k - 1)], SErr)
-              end
+              let r := srv (k_rq k) t (k_size k - 1) in
+              let nb := if is_body_status (r_status r) then S (k_nb k) else k_nb k in
+              let failed := mkRsc (k_rc k) (k_size k) (k_off k) false (k_bi k) nb (S (k_rq k)) in
+              if negb (r_status r =? 206) then (failed, [(t, k_size k - 1)], SErr)
+              (* a Content-Length that is not the length of the requested range is refused *)
+              else if match r_clen r with Some n => negb (n =? k_size k - t) | None => false end
+              then (failed, [(t, k_size k - 1)], SErr)
+              else (mkRsc (r_body r) (k_size k) t false (k_nb k) nb (S (k_rq k)), [(t, k_size k - 1)], SPos t)
     end.
 
-  Fixpoint rsc_run (content : str) (k : rsc) (os : list sop) : list (list (N * N) * sout) :=
+  Fixpoint rsc_run (k : rsc) (os : list sop) : list (list (N * N) * sout) :=
     match os with
     | [] => []
     | o :: rest =>
-        let '(k1, rq, out) := rsc_step content k o in
-        (rq, out) :: rsc_run content k1 rest
+        let '(k1, rq, out) := rsc_step k o in
+        (rq, out) :: rsc_run k1 rest
     end.
 End Seek.
 
-Definition rsc_open (content : str) (size : N) : rsc := mkRsc content size 0 false 0.
+Definition rsc_open (content : str) (size : N) : rsc := mkRsc content size 0 false 0 1 0.
+
+(* the registry model's answer to "GET blob d, Range: bytes=a-b" (Registry.handle), possibly
+   with the j-th answer corrupted in one field *)
+Definition range_srv (p : profile) (d content : str) (kor : option (nat * corruption))
+  : nat -> N -> N -> response :=
+  fun i a bb =>
+    let r := blob_resp p false d (Some content) (Some (a, bb)) in
+    match kor with
+    | Some (j, c) => if Nat.eqb i j then corrupt c r else r
+    | None => r
+    end.
 
 (* What blobStore.Fetch / blobStore.FetchReference hand back when the response says
    Accept-Ranges: bytes -- httputil.NewReadSeekCloser(client, req, resp.Body, SIZE) with SIZE
